@@ -12,8 +12,8 @@ import (
 )
 
 var (
-	One   = big.NewInt(1)
-	Two   = big.NewInt(2)
+	One    = big.NewInt(1)
+	Two    = big.NewInt(2)
 	P2_252 = new(big.Int).Lsh(One, 252)
 	P2_253 = new(big.Int).Lsh(One, 253)
 	P2_255 = new(big.Int).Lsh(One, 255)
@@ -136,7 +136,7 @@ func AllEncodings(p ref.Point) ([][]byte, []string) {
 		k := "canon"
 		y := ref.LEInt(append(append([]byte(nil), e[:31]...), e[31]&0x7f))
 		nc := y.Cmp(ref.P) >= 0
-		sb := (e[31]>>7) != (canon[31]>>7)
+		sb := (e[31] >> 7) != (canon[31] >> 7)
 		switch {
 		case nc && sb:
 			k = "noncanon+signbit"
